@@ -379,6 +379,17 @@ def run(tier, seed):
     n = 1500 if tier == 'quick' else 40000
     runner.run_generated(rep, lambda ch: gen_pair(ch, tier), check_pair, n, workers,
                          shrink_s=20 if tier == 'quick' else 120)
+    # templates that end inside an operator scope (201 / 202 / 207 / 208 / 204 / 203 left open), several subsets: both storage forms
+    for name, c in gmsg.unclosed_scope_cases():
+        try:
+            comp = gmsg.recompress(c, True)
+        except Exception:
+            continue
+        pr = Pair(comp, c)
+        out = check_pair(pr)
+        rep.add_case('unclosed:' + name, True, ['template_ends_inside_an_operator_scope'], None)
+        for clause, detail in out.failures:
+            rep.add_failure('template ends inside an operator scope (%s): %s' % (name, clause), detail, pr.to_json(), stage='hand-laid-out')
     # one element with associated fields of two widths, in messages stored both ways and decoded one after the other by the
     # shared decoder: each storage form gives the data
     from vlib.compare import first_value_diff as _fvd
